@@ -6,6 +6,7 @@ import (
 	"go/token"
 	"go/types"
 	"math/bits"
+	"strings"
 
 	"golang.org/x/tools/go/packages"
 )
@@ -27,6 +28,9 @@ func checkC07(c *Ctx, r *Report) {
 	checkQRInfoReadPositions(c, r)
 	checkQRPadBytes(c, r)
 	checkQRBlockSizing(c, r, rows)
+	checkQRInterleave(c, r)
+	checkQRZigZag(c, r)
+	checkQRTerminate(c, r)
 	checkQRVersionPlacement(c, r)
 	checkQRBasicPlacement(c, r)
 	r.Assume("ISO/IEC 18004 Table 9 as transcribed in checker/ref_qr.go (cross-validated by the geometry-derived totals: a wrong transcription would make data/blocks non-integral or disagree with the published capacities)")
@@ -412,7 +416,7 @@ func maskTermOK(p *packages.Package, e ast.Expr) (ok bool, why string) {
 }
 
 func checkQRMasks(c *Ctx, r *Report) {
-	r.Rule("S-MASK", "for k=0..7: encoder MaskUtil_getDataMaskBit(k, x, y) == decoder DataMaskValues[k](i=y, j=x) == ISO 18004 mask condition k on all 144 residues (mod 12) after 12-periodicity is established syntactically", 16)
+	r.Rule("S-MASK", "for k=0..7: encoder MaskUtil_getDataMaskBit(k, x, y) == decoder DataMaskValues[k](i=y, j=x) == ISO 18004 mask condition k: on all 144 residues (mod 12) when the term is periodic by construction (only +, *, /2, /3, %2, %3, &1 of the coordinates), otherwise folded at every one of the 177 x 177 positions of the largest symbol", 16)
 	// decoder side
 	init, dp := c.varInit("qrcode/decoder", "DataMaskValues")
 	var decLits []*ast.FuncLit
@@ -455,9 +459,13 @@ func checkQRMasks(c *Ctx, r *Report) {
 				r.Undecided("S-MASK", key, c.pos(init.Pos()), "entry is not a single-return function literal")
 			} else if rs, ok := fl.Body.List[0].(*ast.ReturnStmt); !ok || len(rs.Results) != 1 {
 				r.Undecided("S-MASK", key, c.pos(fl.Pos()), "entry is not a single-return function literal")
-			} else if ok, why := maskTermOK(dp, rs.Results[0]); !ok {
-				r.Undecided("S-MASK", key, c.pos(fl.Pos()), "12-periodicity not established: "+why)
 			} else {
+				// a term built from +, *, /2, /3, %2, %3, &1 of the coordinates has period 12 in both: 12 x 12
+				// positions decide it; any other term is folded at every position of the largest symbol
+				span := 12
+				if ok, _ := maskTermOK(dp, rs.Results[0]); !ok {
+					span = 177
+				}
 				var ps []types.Object
 				for _, f := range fl.Type.Params.List {
 					for _, n := range f.Names {
@@ -465,8 +473,8 @@ func checkQRMasks(c *Ctx, r *Report) {
 					}
 				}
 				bad := ""
-				for i := 0; i < 12 && bad == "" && len(ps) == 2; i++ {
-					for j := 0; j < 12; j++ {
+				for i := 0; i < span && bad == "" && len(ps) == 2; i++ {
+					for j := 0; j < span; j++ {
 						v, err := c.rpfExpr(dp, rs.Results[0], map[types.Object]*Val{ps[0]: vint(int64(i)), ps[1]: vint(int64(j))}, nil)
 						if err != nil {
 							bad = "?" + err.Error()
@@ -510,13 +518,15 @@ func checkQRMasks(c *Ctx, r *Report) {
 				}
 				return true
 			})
+			span := 12
 			if !perOK {
-				r.Undecided("S-MASK", key, c.pos(encFd.Pos()), "12-periodicity not established: "+why)
-				continue
+				// not a term of period 12 by construction (%s): folded at every position of the largest symbol
+				_ = why
+				span = 177
 			}
 			bad := ""
-			for x := 0; x < 12 && bad == ""; x++ {
-				for y := 0; y < 12; y++ {
+			for x := 0; x < span && bad == ""; x++ {
+				for y := 0; y < span; y++ {
 					res, err := c.rpfCall(encFd, ep, []*Val{vint(int64(k)), vint(int64(x)), vint(int64(y))}, nil)
 					if err != nil {
 						bad = "?" + err.Error()
@@ -1587,4 +1597,566 @@ func checkQRBasicPlacement(c *Ctx, r *Report) {
 		}
 	}
 	r.Check(bad == "", "T-BASICPOS", key, c.pos(loop.Pos()), bad)
+}
+
+// ---- S-INTERLEAVE: block split and interleaving, and its inverse in the decoder ----
+
+func checkQRInterleave(c *Ctx, r *Report) {
+	r.Rule("S-INTERLEAVE", "for a (version, level) structure the encoder's interleaveWithECBytes - folded with tagged codewords (data byte k carries tag k, check byte j of block b its own tag; Reed-Solomon itself is not run) - emits the data codewords column by column over the blocks (shorter blocks first, sequentially filled), then the check codewords column by column, as ISO 18004 8.6 prescribes, and the decoder's DataBlock_GetDataBlocks, folded on that very sequence, hands every block exactly its own data and check codewords back in order; quick tier: 10 versions x 4 levels, thorough tier: all 160", 40)
+	efd, ep := c.funcDeclOf("qrcode/encoder", "interleaveWithECBytes")
+	dfd, dp := c.funcDeclOf("qrcode/decoder", "DataBlock_GetDataBlocks")
+	if efd == nil || dfd == nil {
+		r.AnchorLost("S-INTERLEAVE", "qrcode interleave", "interleaveWithECBytes / DataBlock_GetDataBlocks not found")
+		return
+	}
+	versions := []int{1, 2, 5, 7, 10, 15, 20, 27, 32, 40}
+	if c.Tier == "thorough" {
+		versions = nil
+		for v := 1; v <= 40; v++ {
+			versions = append(versions, v)
+		}
+	}
+	const ecTag = 1000000
+	for _, v := range versions {
+		for lv := 0; lv < 4; lv++ {
+			key := fmt.Sprintf("qrcode interleave v%d-%s", v, refQRLevelNames[lv])
+			r.Analysed(key)
+			ec, groups := refQRBlocks(v, lv)
+			total := refQRTotalCodewords(v)
+			// reference block structure
+			var dataLen []int
+			for _, g := range groups {
+				for i := 0; i < g[0]; i++ {
+					dataLen = append(dataLen, g[1])
+				}
+			}
+			nb := len(dataLen)
+			numData := total - ec*nb
+			// expected interleaved sequence
+			var want []int64
+			start := make([]int, nb)
+			off := 0
+			maxD := 0
+			for b, n := range dataLen {
+				start[b] = off
+				off += n
+				if n > maxD {
+					maxD = n
+				}
+			}
+			for i := 0; i < maxD; i++ {
+				for b := 0; b < nb; b++ {
+					if i < dataLen[b] {
+						want = append(want, int64(start[b]+i))
+					}
+				}
+			}
+			for i := 0; i < ec; i++ {
+				for b := 0; b < nb; b++ {
+					want = append(want, int64(ecTag+b*1000+i))
+				}
+			}
+			// ---- encoder
+			var emitted []int64
+			blockNo := 0
+			eh := &rpf{unroll: 100000, maxSteps: 3000000}
+			eh.callHook = func(rr *rpf, call *ast.CallExpr, callee types.Object) (*Val, bool) {
+				fn, ok := callee.(*types.Func)
+				if !ok {
+					return nil, false
+				}
+				switch {
+				case isMethodNamed(callee, "", "BitArray", "GetSizeInBytes"):
+					if id, isI := call.Fun.(*ast.SelectorExpr).X.(*ast.Ident); isI && id.Name == "result" {
+						return vint(int64(len(emitted))), true
+					}
+					return vint(int64(numData)), true
+				case isMethodNamed(callee, "", "BitArray", "ToBytes"):
+					o, dst, n := rr.expr(call.Args[0]), rr.expr(call.Args[1]), rr.expr(call.Args[3])
+					if o.K != VInt || n.K != VInt || dst.K != VList || o.I%8 != 0 || int64(len(dst.L)) < n.I {
+						rpfFail("ToBytes with unexpected arguments")
+					}
+					for k := int64(0); k < n.I; k++ {
+						dst.L[k] = vint(o.I/8 + k)
+					}
+					return &Val{K: VNil}, true
+				case isMethodNamed(callee, "", "BitArray", "AppendBits"):
+					val, w := rr.expr(call.Args[0]), rr.expr(call.Args[1])
+					if val.K != VInt || w.K != VInt || w.I != 8 {
+						rpfFail("AppendBits with unexpected arguments")
+					}
+					emitted = append(emitted, val.I)
+					return &Val{K: VNil}, true
+				case fn.Name() == "NewEmptyBitArray":
+					return &Val{K: VNil}, true
+				}
+				return errCtorHook(rr, call, callee)
+			}
+			eh.multiHook = func(call *ast.CallExpr, callee types.Object) ([]*Val, bool) {
+				if isFuncNamed(callee, "qrcode/encoder", "generateECBytes") {
+					n := rpfCurrent.expr(call.Args[1])
+					out := &Val{K: VList}
+					for i := int64(0); i < n.I; i++ {
+						out.L = append(out.L, vint(int64(ecTag+blockNo*1000)+i))
+					}
+					blockNo++
+					return []*Val{out, {K: VNil}}, true
+				}
+				return nil, false
+			}
+			res, err := c.rpfCall(efd, ep, []*Val{{K: VNil}, vint(int64(total)), vint(int64(numData)), vint(int64(nb))}, eh)
+			pos := c.pos(efd.Pos())
+			if err != nil {
+				r.Undecided("S-INTERLEAVE", key, pos, "encoder: "+err.Error())
+				continue
+			}
+			if len(res) != 2 || res[1].K != VNil {
+				r.Fail("S-INTERLEAVE", key, pos, "violation", fmt.Sprintf("interleaveWithECBytes(%d total, %d data, %d blocks) reports an error", total, numData, nb))
+				continue
+			}
+			if fmt.Sprint(emitted) != fmt.Sprint(want) {
+				at := 0
+				for at < len(emitted) && at < len(want) && emitted[at] == want[at] {
+					at++
+				}
+				r.Fail("S-INTERLEAVE", key, pos, "violation", fmt.Sprintf("the interleaved stream has %d codewords (expected %d) and first differs from ISO 18004 8.6 at position %d: %s instead of %s", len(emitted), len(want), at, tagName(emitted, at, ecTag), tagName(want, at, ecTag)))
+				continue
+			}
+			// ---- decoder on that stream
+			raw := &Val{K: VList}
+			for _, t := range emitted {
+				raw.L = append(raw.L, vint(t))
+			}
+			ecb := &Val{K: VList}
+			for _, g := range groups {
+				ecb.L = append(ecb.L, &Val{K: VStruct, Fields: map[string]*Val{"count": vint(int64(g[0])), "dataCodewords": vint(int64(g[1]))}})
+			}
+			ecBlocks := &Val{K: VStruct, Ptr: true, Fields: map[string]*Val{"ecCodewordsPerBlock": vint(int64(ec)), "ecBlocks": ecb}}
+			dh := &rpf{unroll: 100000, maxSteps: 3000000}
+			dh.callHook = func(rr *rpf, call *ast.CallExpr, callee types.Object) (*Val, bool) {
+				fn, ok := callee.(*types.Func)
+				if !ok {
+					return nil, false
+				}
+				switch fn.Name() {
+				case "GetTotalCodewords":
+					return vint(int64(total)), true
+				case "GetECBlocksForLevel":
+					return ecBlocks, true
+				}
+				return errCtorHook(rr, call, callee)
+			}
+			dres, err := c.rpfCall(dfd, dp, []*Val{raw, {K: VNil}, vint(int64(lv))}, dh)
+			dpos := c.pos(dfd.Pos())
+			if err != nil {
+				r.Undecided("S-INTERLEAVE", key, dpos, "decoder: "+err.Error())
+				continue
+			}
+			if len(dres) != 2 || dres[1].K != VNil || dres[0].K != VList || len(dres[0].L) != nb {
+				r.Fail("S-INTERLEAVE", key, dpos, "violation", fmt.Sprintf("DataBlock_GetDataBlocks does not return the %d blocks of this structure", nb))
+				continue
+			}
+			bad := ""
+			for b := 0; b < nb && bad == ""; b++ {
+				blk := dres[0].L[b]
+				if blk.K != VStruct || blk.Fields["codewords"] == nil || blk.Fields["numDataCodewords"] == nil {
+					bad = "?block value not recognised"
+					break
+				}
+				if blk.Fields["numDataCodewords"].I != int64(dataLen[b]) {
+					bad = fmt.Sprintf("block %d is given %d data codewords, the structure has %d", b, blk.Fields["numDataCodewords"].I, dataLen[b])
+					break
+				}
+				got, _ := listInts(blk.Fields["codewords"])
+				var exp []int64
+				for i := 0; i < dataLen[b]; i++ {
+					exp = append(exp, int64(start[b]+i))
+				}
+				for i := 0; i < ec; i++ {
+					exp = append(exp, int64(ecTag+b*1000+i))
+				}
+				if fmt.Sprint(got) != fmt.Sprint(exp) {
+					at := 0
+					for at < len(got) && at < len(exp) && got[at] == exp[at] {
+						at++
+					}
+					bad = fmt.Sprintf("block %d: codeword %d handed back by the decoder is %s, the encoder put %s there", b, at, tagName(got, at, ecTag), tagName(exp, at, ecTag))
+				}
+			}
+			if bad != "" && bad[0] == '?' {
+				r.Undecided("S-INTERLEAVE", key, dpos, bad[1:])
+			} else {
+				r.Check(bad == "", "S-INTERLEAVE", key, dpos, bad)
+			}
+		}
+	}
+}
+
+func tagName(xs []int64, at int, ecTag int64) string {
+	if at >= len(xs) {
+		return "<end of stream>"
+	}
+	t := xs[at]
+	if t >= ecTag {
+		return fmt.Sprintf("check codeword %d of block %d", (t-ecTag)%1000, (t-ecTag)/1000)
+	}
+	return fmt.Sprintf("data codeword %d", t)
+}
+
+// ---- S-ZIGZAG: module placement of the codeword stream and its read-out ----
+
+func refQRIsFunction(v, x, y int) bool {
+	dim := 17 + 4*v
+	// finder patterns with separators and format information
+	if (x < 9 && y < 9) || (x >= dim-8 && y < 9) || (x < 9 && y >= dim-8) {
+		return true
+	}
+	// timing patterns
+	if x == 6 || y == 6 {
+		return true
+	}
+	// alignment patterns
+	al := refQRAlign(v)
+	for _, cy := range al {
+		for _, cx := range al {
+			if (cx == 6 && cy == 6) || (cx == 6 && cy == dim-7) || (cx == dim-7 && cy == 6) {
+				continue
+			}
+			if x >= cx-2 && x <= cx+2 && y >= cy-2 && y <= cy+2 {
+				return true
+			}
+		}
+	}
+	// version information
+	if v >= 7 {
+		if (x >= dim-11 && x < dim-8 && y < 6) || (y >= dim-11 && y < dim-8 && x < 6) {
+			return true
+		}
+	}
+	return false
+}
+
+// refQRZigZag: ISO 18004 8.7.3 - two-module wide columns from the right, alternately upwards and downwards,
+// the vertical timing column skipped, within a column pair the right module first.
+func refQRZigZag(v int) [][2]int {
+	dim := 17 + 4*v
+	var out [][2]int
+	up := true
+	for x := dim - 1; x > 0; x -= 2 {
+		if x == 6 {
+			x--
+		}
+		for k := 0; k < dim; k++ {
+			y := k
+			if up {
+				y = dim - 1 - k
+			}
+			for c := 0; c < 2; c++ {
+				if !refQRIsFunction(v, x-c, y) {
+					out = append(out, [2]int{x - c, y})
+				}
+			}
+		}
+		up = !up
+	}
+	return out
+}
+
+func checkQRZigZag(c *Ctx, r *Report) {
+	r.Rule("S-ZIGZAG", "the encoder's embedDataBits places bit k of the codeword stream, and the decoder's ReadCodewords reads its k-th bit, at the k-th data module of the ISO 18004 8.7.3 traversal (two-module columns from the right, alternately up and down, vertical timing column skipped, function modules skipped) - both functions are folded on the reference function-pattern map of versions 1, 2, 7 and 14 (thorough tier: also 21, 32, 40); bits are taken from the stream in order and the mask is asked for the module's own (x, y)", 8)
+	efd, ep := c.funcDeclOf("qrcode/encoder", "embedDataBits")
+	dfd, dp := c.funcDeclOf("qrcode/decoder", "BitMatrixParser.ReadCodewords")
+	if efd == nil || dfd == nil {
+		r.AnchorLost("S-ZIGZAG", "qrcode placement", "embedDataBits / ReadCodewords not found")
+		return
+	}
+	versions := []int{1, 2, 7, 14}
+	if c.Tier == "thorough" {
+		versions = append(versions, 21, 32, 40)
+	}
+	for _, v := range versions {
+		dim := int64(17 + 4*v)
+		total := int64(refQRTotalCodewords(v))
+		want := refQRZigZag(v)
+		describe := func(seq [][2]int64) string {
+			at := 0
+			for at < len(seq) && at < len(want) && seq[at][0] == int64(want[at][0]) && seq[at][1] == int64(want[at][1]) {
+				at++
+			}
+			if at >= len(seq) && at >= len(want) {
+				return ""
+			}
+			g, w := "<end>", "<end>"
+			if at < len(seq) {
+				g = fmt.Sprintf("(%d,%d)", seq[at][0], seq[at][1])
+			}
+			if at < len(want) {
+				w = fmt.Sprintf("(%d,%d)", want[at][0], want[at][1])
+			}
+			return fmt.Sprintf("%d modules visited, %d data modules in the symbol; bit %d goes to module %s, ISO 18004 8.7.3 puts it at %s", len(seq), len(want), at, g, w)
+		}
+		// ---- encoder
+		key := fmt.Sprintf("qrcode/encoder.embedDataBits v%d", v)
+		r.Analysed(key)
+		var placed [][2]int64
+		var taken []int64
+		maskArgsOK := true
+		eh := &rpf{unroll: 1000000, maxSteps: 8000000}
+		eh.callHook = func(rr *rpf, call *ast.CallExpr, callee types.Object) (*Val, bool) {
+			fn, ok := callee.(*types.Func)
+			if !ok {
+				return nil, false
+			}
+			switch {
+			case isMethodNamed(callee, "qrcode/encoder", "ByteMatrix", "GetWidth"), isMethodNamed(callee, "qrcode/encoder", "ByteMatrix", "GetHeight"):
+				return vint(dim), true
+			case isMethodNamed(callee, "qrcode/encoder", "ByteMatrix", "Get"):
+				x, y := rr.expr(call.Args[0]), rr.expr(call.Args[1])
+				if x.K != VInt || y.K != VInt || x.I < 0 || y.I < 0 || x.I >= dim || y.I >= dim {
+					rpfFail("matrix.Get outside the symbol")
+				}
+				if refQRIsFunction(v, int(x.I), int(y.I)) {
+					return vint(1), true
+				}
+				for _, pl := range placed {
+					if pl[0] == x.I && pl[1] == y.I {
+						return vint(0), true
+					}
+				}
+				return vint(-1), true
+			case isMethodNamed(callee, "qrcode/encoder", "ByteMatrix", "SetBool"):
+				x, y := rr.expr(call.Args[0]), rr.expr(call.Args[1])
+				placed = append(placed, [2]int64{x.I, y.I})
+				return &Val{K: VNil}, true
+			case isMethodNamed(callee, "", "BitArray", "GetSize"):
+				return vint(total * 8), true
+			case isMethodNamed(callee, "", "BitArray", "Get"):
+				i := rr.expr(call.Args[0])
+				taken = append(taken, i.I)
+				return vbool(false), true
+			case fn.Name() == "isEmpty":
+				return nil, false
+			}
+			return errCtorHook(rr, call, callee)
+		}
+		eh.multiHook = func(call *ast.CallExpr, callee types.Object) ([]*Val, bool) {
+			if isFuncNamed(callee, "qrcode/encoder", "MaskUtil_getDataMaskBit") {
+				x, y := rpfCurrent.expr(call.Args[1]), rpfCurrent.expr(call.Args[2])
+				// the mask must be asked for the module about to be written
+				n := len(placed)
+				_ = n
+				maskAsk = append(maskAsk, [2]int64{x.I, y.I})
+				return []*Val{vbool(false), {K: VNil}}, true
+			}
+			return nil, false
+		}
+		maskAsk = nil
+		res, err := c.rpfCall(efd, ep, []*Val{{K: VNil}, vint(0), {K: VNil}}, eh)
+		pos := c.pos(efd.Pos())
+		switch {
+		case err != nil:
+			r.Undecided("S-ZIGZAG", key, pos, err.Error())
+		case len(res) != 1 || res[0].K != VNil:
+			r.Fail("S-ZIGZAG", key, pos, "violation", "embedDataBits reports an error on a symbol of the right size")
+		default:
+			bad := describe(placed)
+			if bad == "" {
+				for k, t := range taken {
+					if t != int64(k) {
+						bad = fmt.Sprintf("the %d-th bit placed is bit %d of the stream", k, t)
+						break
+					}
+				}
+			}
+			if bad == "" && int64(len(taken)) != total*8 {
+				bad = fmt.Sprintf("%d bits taken from a stream of %d", len(taken), total*8)
+			}
+			if bad == "" {
+				if len(maskAsk) != len(placed) {
+					maskArgsOK = false
+				}
+				for k := range maskAsk {
+					if k < len(placed) && maskAsk[k] != placed[k] {
+						maskArgsOK = false
+					}
+				}
+				if !maskArgsOK {
+					bad = "the data mask is not evaluated at the coordinates of the module being written"
+				}
+			}
+			r.Check(bad == "", "S-ZIGZAG", key, pos, bad)
+		}
+		// ---- decoder
+		key = fmt.Sprintf("qrcode/decoder.BitMatrixParser.ReadCodewords v%d", v)
+		r.Analysed(key)
+		var read [][2]int64
+		dh := &rpf{unroll: 1000000, maxSteps: 8000000}
+		dh.selHook = func(rr *rpf, sel *ast.SelectorExpr) (*Val, bool) {
+			if sel.Sel.Name == "bitMatrix" {
+				return &Val{K: VStruct, Fields: map[string]*Val{"tag": vstr("image")}}, true
+			}
+			return nil, false
+		}
+		dh.idxHook = func(rr *rpf, ix *ast.IndexExpr) (*Val, bool) {
+			if id, ok := ix.X.(*ast.Ident); ok && id.Name == "DataMaskValues" {
+				return &Val{K: VStruct, Fields: map[string]*Val{"tag": vstr("mask")}}, true
+			}
+			return nil, false
+		}
+		dh.callHook = func(rr *rpf, call *ast.CallExpr, callee types.Object) (*Val, bool) {
+			fn, ok := callee.(*types.Func)
+			if !ok {
+				return nil, false
+			}
+			switch fn.Name() {
+			case "GetDataMask":
+				return vint(0), true
+			case "UnmaskBitMatrix":
+				return &Val{K: VNil}, true
+			case "GetTotalCodewords":
+				return vint(total), true
+			case "GetHeight", "GetWidth":
+				return vint(dim), true
+			case "Get":
+				if !isMethodNamed(callee, "", "BitMatrix", "Get") {
+					return nil, false
+				}
+				x, y := rr.expr(call.Args[0]), rr.expr(call.Args[1])
+				if x.K != VInt || y.K != VInt || x.I < 0 || y.I < 0 || x.I >= dim || y.I >= dim {
+					rpfFail("a module outside the symbol is read")
+				}
+				recv := exprString(call.Fun.(*ast.SelectorExpr).X)
+				if strings.Contains(recv, "functionPattern") {
+					return vbool(refQRIsFunction(v, int(x.I), int(y.I))), true
+				}
+				read = append(read, [2]int64{x.I, y.I})
+				return vbool(false), true
+			}
+			return errCtorHook(rr, call, callee)
+		}
+		dh.multiHook = func(call *ast.CallExpr, callee types.Object) ([]*Val, bool) {
+			if fn, ok := callee.(*types.Func); ok {
+				switch fn.Name() {
+				case "ReadFormatInformation", "ReadVersion", "buildFunctionPattern":
+					return []*Val{{K: VStruct, Fields: map[string]*Val{"tag": vstr(fn.Name())}}, {K: VNil}}, true
+				}
+			}
+			return nil, false
+		}
+		dh.env = map[types.Object]*Val{}
+		if ro := recvObj(dp, dfd); ro != nil {
+			dh.env[ro] = &Val{K: VStruct, Fields: map[string]*Val{}, Local: true}
+		}
+		dres, err := c.rpfCall(dfd, dp, nil, dh)
+		dpos := c.pos(dfd.Pos())
+		switch {
+		case err != nil:
+			r.Undecided("S-ZIGZAG", key, dpos, err.Error())
+		case len(dres) != 2 || dres[1].K != VNil:
+			r.Fail("S-ZIGZAG", key, dpos, "violation", "ReadCodewords reports an error on a symbol of the right size: the number of data modules it visits does not give the version's codeword count")
+		default:
+			r.Check(describe(read) == "", "S-ZIGZAG", key, dpos, describe(read))
+		}
+	}
+}
+
+var maskAsk [][2]int64
+
+// S-TERM: terminator, bit padding and pad codewords (ISO 18004 8.4.8 - 8.4.9)
+func checkQRTerminate(c *Ctx, r *Report) {
+	r.Rule("S-TERM", "terminateBits, folded on a model of the bit array (size, append) for every data capacity of 1..6 codewords and every bit count from 0 to one past the capacity, rejects only a bit count over the capacity and otherwise leaves exactly: the bits given, a terminator of min(4, capacity - size) zero bits, zero bits up to the codeword boundary, then pad codewords 0xEC, 0x11 alternately up to the capacity", 1)
+	fd, p := c.funcDeclOf("qrcode/encoder", "terminateBits")
+	if fd == nil {
+		r.AnchorLost("S-TERM", "qrcode/encoder.terminateBits", "function not found")
+		return
+	}
+	key := "qrcode/encoder.terminateBits"
+	r.Analysed(key)
+	bad := ""
+	folds := 0
+	for n := int64(1); n <= 6 && bad == ""; n++ {
+		for size := int64(0); size <= 8*n+1 && bad == ""; size++ {
+			var bits []bool
+			for i := int64(0); i < size; i++ {
+				bits = append(bits, (i*5+n)%3 == 0)
+			}
+			orig := append([]bool{}, bits...)
+			h := &rpf{unroll: 1000}
+			h.callHook = func(rr *rpf, call *ast.CallExpr, callee types.Object) (*Val, bool) {
+				switch {
+				case isMethodNamed(callee, "", "BitArray", "GetSize"):
+					return vint(int64(len(bits))), true
+				case isMethodNamed(callee, "", "BitArray", "GetSizeInBytes"):
+					return vint(int64(len(bits)+7) / 8), true
+				case isMethodNamed(callee, "", "BitArray", "AppendBit"):
+					b := rr.expr(call.Args[0])
+					if b.K != VBool {
+						rpfFail("AppendBit with a non-constant argument")
+					}
+					bits = append(bits, b.B)
+					return &Val{K: VNil}, true
+				case isMethodNamed(callee, "", "BitArray", "AppendBits"):
+					v, w := rr.expr(call.Args[0]), rr.expr(call.Args[1])
+					if v.K != VInt || w.K != VInt || w.I < 0 || w.I > 32 {
+						rpfFail("AppendBits with non-constant arguments")
+					}
+					for k := w.I - 1; k >= 0; k-- {
+						bits = append(bits, v.I>>uint(k)&1 == 1)
+					}
+					return &Val{K: VNil}, true
+				}
+				return errCtorHook(rr, call, callee)
+			}
+			res, err := c.rpfCall(fd, p, []*Val{vint(n), {K: VNil}}, h)
+			folds++
+			if err != nil {
+				bad = "?" + err.Error()
+				break
+			}
+			failed := len(res) != 1 || res[0].K != VNil
+			if size > 8*n {
+				if !failed {
+					bad = fmt.Sprintf("%d bits are accepted for a capacity of %d codewords", size, n)
+				}
+				continue
+			}
+			if failed {
+				bad = fmt.Sprintf("%d bits, which fit the capacity of %d codewords (%d bits), are rejected", size, n, 8*n)
+				break
+			}
+			want := append([]bool{}, orig...)
+			for i := 0; i < 4 && int64(len(want)) < 8*n; i++ {
+				want = append(want, false)
+			}
+			for len(want)%8 != 0 {
+				want = append(want, false)
+			}
+			for i := 0; int64(len(want)) < 8*n; i++ {
+				v := 0xEC
+				if i%2 == 1 {
+					v = 0x11
+				}
+				for k := 7; k >= 0; k-- {
+					want = append(want, v>>uint(k)&1 == 1)
+				}
+			}
+			if fmt.Sprint(bits) != fmt.Sprint(want) {
+				bad = fmt.Sprintf("for %d bits and a capacity of %d codewords the result has %d bits %s; ISO 18004 8.4.8/8.4.9 gives %s", size, n, len(bits), bitString(bits[min(len(bits), int(size)):]), bitString(want[size:]))
+			}
+		}
+	}
+	r.Extra("S-TERM folds", folds)
+	reportFold(r, c, "S-TERM", key, fd.Pos(), bad)
+}
+
+func bitString(b []bool) string {
+	s := "after the data: "
+	for _, x := range b {
+		if x {
+			s += "1"
+		} else {
+			s += "0"
+		}
+	}
+	return s
 }
